@@ -110,3 +110,6 @@ def request_path_contracts(reg):
                                 'isnone(self.upstream) or (%s)' % UP_FRESH,
                                 '(not isnone(self.upstream)) ==> connects == old(connects) + 1'])})
     return [dh, orc]
+
+
+CROSSCHECK = ['AuthPlugin.before_upstream_connection', 'HttpParser.del_header', 'HttpParser.del_headers']
